@@ -145,7 +145,7 @@ Qed.
 Lemma sax_unescape_nonnil ents s : entities_nonempty ents = true -> s <> [] -> sax_unescape ents s <> [].
 Proof.
   intros He Hs. unfold sax_unescape. apply replace_seq_nonnil; [|exact Hs].
-  rewrite !forallb_app. unfold entities_nonempty in He. rewrite He. reflexivity.
+  rewrite !forallb_app. apply andb_true_iff. split; [reflexivity|]. apply andb_true_iff. split; [exact He|reflexivity].
 Qed.
 Lemma string_entities_nonempty : entities_nonempty string_entities = true.
 Proof. vm_compute. reflexivity. Qed.
@@ -176,7 +176,6 @@ Proof.
   intros Hc Hu. destruct v; cbn [convert_bool unconvert_bool] in *; try discriminate.
   - exfalso. exact (req_none_not_some' _ _ Hu).
   - rewrite bool_inv in Hu. injection Hu as <-. rewrite bool_get_inv. reflexivity.
-  - destruct (mapping_get bool_mapping s0); discriminate.
 Qed.
 
 Lemma convert_unconvert_string l strict req v s w w' :
@@ -188,17 +187,18 @@ Proof.
   - destruct (isnil s0) eqn:En.
     { destruct req; cbn in Hc; discriminate. }
     destruct (enforce_length_str l strict (string_unescape s0)) as [[u wu]|] eqn:Ee; cbn [rmap fst snd] in Hc; [|discriminate].
-    injection Hc as Hu0 <-. pose proof (enforce_length_str_ok _ _ _ _ _ Ee) as Hu1. subst u.
+    assert (Eu : u = s0) by congruence. pose proof (enforce_length_str_ok _ _ _ _ _ Ee) as Hu1. rewrite Eu in Hu1.
     destruct (enforce_length_str l strict s0) as [[u2 w2]|] eqn:Ee2; cbn [rmap fst snd] in Hu; [|discriminate].
-    injection Hu as <- <-. pose proof (enforce_length_str_ok _ _ _ _ _ Ee2) as ->.
-    rewrite En, Hu0, Ee2. reflexivity.
+    pose proof (enforce_length_str_ok _ _ _ _ _ Ee2) as E2. subst u2.
+    assert (s = s0) by congruence. assert (w2 = w') by congruence. subst s w2.
+    rewrite En, <- Hu1, Ee2. reflexivity.
 Qed.
 
 Lemma convert_unconvert_oneof valid req v s : convert_oneof valid req v = OK v -> unconvert_oneof valid req v = OK (Some s) -> convert_oneof valid req (PStr s) = OK v.
 Proof.
   intros Hc Hu. destruct v; cbn [convert_oneof unconvert_oneof] in *; try discriminate.
   - exfalso. exact (req_none_not_some' _ _ Hu).
-  - destruct (mem_text s0 valid); [|discriminate]. injection Hu as <-. exact Hc.
+  - destruct (mem_text s0 valid) eqn:Em; [|discriminate]. injection Hu as <-. rewrite Em. exact Hc.
 Qed.
 
 Lemma convert_unconvert_integer l req z s : convert_integer l req (PInt z) = OK (PInt z) -> unconvert_integer l req (PInt z) = OK (Some s) ->
@@ -285,3 +285,312 @@ Proof.
     + exfalso. exact (req_none_not_some' _ _ E2).
     + rewrite (convert_unconvert_decimal scale req d s Hwf E1 E2). reflexivity.
 Qed.
+
+(** ================= reading then writing: a canonical text that reads to the same value ================= *)
+(** a str value on which String.convert's un-escaping does nothing (see notes: the reading adopted for C10) *)
+Definition entity_free (v : pyval) : Prop := match v with PStr s => string_unescape s = s | _ => True end.
+
+Lemma normalize_dec_finite scale d d' : normalize_dec scale d = OK (PDec d') -> is_finite d' = true.
+Proof.
+  destruct d as [neg c e| |]; cbn [normalize_dec]; try discriminate. destruct scale as [n|].
+  - destruct (quantize neg c e (quantum_exp n)) as [x|] eqn:Eq; cbn [rmap]; [|discriminate]. intro H. injection H as ->.
+    destruct (quantize_result _ _ _ _ _ Eq) as (c' & -> & _). reflexivity.
+  - destruct (0 <? e)%Z.
+    + destruct (quantize neg c e 0) as [x|] eqn:Eq; cbn [rmap]; [|discriminate]. intro H. injection H as ->.
+      destruct (quantize_result _ _ _ _ _ Eq) as (c' & -> & _). reflexivity.
+    + intro H. injection H as <-. reflexivity.
+Qed.
+
+Theorem canonical_sty t req s v w :
+  convert_sty t req (PStr s) = OK (v, w) -> v <> PNone -> entity_free v ->
+  exists c w1, unconvert_sty t req v = OK (Some c, w1) /\ convert_sty t req (PStr c) = OK (v, w1).
+Proof.
+  intros Hc Hn Hf. destruct t as [|l strict|valid|l|scale]; cbn [convert_sty unconvert_sty] in *.
+  - (* Bool *)
+    cbn [convert_bool] in Hc. destruct (mapping_get bool_mapping s) as [b|] eqn:Eg; cbn [nowarn rmap] in Hc; [|discriminate].
+    injection Hc as <- <-. exists (if b then [89] else [78]), false. cbn [unconvert_bool convert_bool]. rewrite bool_inv, bool_get_inv. auto.
+  - (* String / NagString *)
+    cbn [convert_string] in Hc. destruct (isnil s) eqn:En.
+    { destruct req; cbn in Hc; [discriminate|]. injection Hc as <- _. congruence. }
+    destruct (enforce_length_str l strict (string_unescape s)) as [[u wu]|] eqn:Ee; cbn [rmap fst snd] in Hc; [|discriminate].
+    injection Hc as <- <-. pose proof (enforce_length_str_ok _ _ _ _ _ Ee) as ->. cbn [entity_free] in Hf.
+    assert (Hne : string_unescape s <> []) by (apply string_unescape_nonnil; destruct s; [discriminate|discriminate]).
+    exists (string_unescape s), wu. cbn [unconvert_string convert_string]. rewrite (isnil_false _ Hne), Hf, Ee. auto.
+  - (* OneOf *)
+    cbn [convert_oneof] in Hc. destruct (isnil s) eqn:En.
+    { destruct req; cbn in Hc; [discriminate|]. injection Hc as <- _. congruence. }
+    destruct (mem_text s valid) eqn:Em; cbn [nowarn rmap] in Hc; [|discriminate]. injection Hc as <- <-.
+    exists s, false. cbn [unconvert_oneof convert_oneof]. rewrite En, Em. auto.
+  - (* Integer *)
+    cbn [convert_integer] in Hc. destruct (isnil s) eqn:En.
+    { destruct req; cbn in Hc; [discriminate|]. injection Hc as <- _. congruence. }
+    destruct (py_int_of_string s) as [z|] eqn:Ei; cbn [bind] in Hc; [|discriminate].
+    destruct (enforce_length_int l z) as [[]|] eqn:El; cbn [bind nowarn rmap] in Hc; [|discriminate]. injection Hc as <- <-.
+    exists (Z_text z), false. cbn [unconvert_integer convert_integer]. rewrite El. cbn [bind].
+    rewrite (int_of_string_writable s z Ei). cbn [rmap nowarn].
+    destruct (str_int_roundtrip z (Z_text z) (int_of_string_writable s z Ei)) as [Hr Hne].
+    rewrite (isnil_false _ Hne), Hr. cbn [bind]. rewrite El. auto.
+  - (* Decimal *)
+    cbn [convert_decimal] in Hc. destruct (of_string_comma s) as [d0|] eqn:Eo; cbn [bind] in Hc; [|discriminate].
+    destruct (normalize_dec scale d0) as [v0|] eqn:En; cbn [nowarn rmap] in Hc; [|discriminate]. injection Hc as <- <-.
+    destruct (normalize_dec_fixed scale d0 v0 (of_string_comma_wf _ _ Eo) En) as (d' & -> & Hwf & Hfix).
+    pose proof (normalize_dec_finite _ _ _ Hfix) as Hfin. destruct d' as [neg c e| |]; try discriminate.
+    destruct (normalize_dec_fixed_shape scale neg c e Hfix) as [He Hq].
+    assert (Hu : unconvert_decimal scale req (PDec (Fin neg c e)) = OK (Some (to_plain_fin neg c e))).
+    { cbn [unconvert_decimal is_finite negb to_plain]. destruct scale as [n|]; [|reflexivity].
+      cbn [same_quantum_exp]. rewrite (Hq n eq_refl), Z.eqb_refl. reflexivity. }
+    exists (to_plain_fin neg c e), false. rewrite Hu. cbn [nowarn rmap]. split; [reflexivity|].
+    rewrite (convert_unconvert_decimal scale req (Fin neg c e) _ Hwf Hfix Hu). reflexivity.
+Qed.
+
+(** ================= None ================= *)
+Theorem none_passthrough_sty t req :
+  (req = false -> convert_sty t req PNone = OK (PNone, false) /\ unconvert_sty t req PNone = OK (None, false)) /\
+  (req = true -> convert_sty t req PNone = Err Reject /\ unconvert_sty t req PNone = Err Reject).
+Proof. destruct t, req; split; intro H; try discriminate H; split; reflexivity. Qed.
+
+(** ================= limits ================= *)
+Theorem string_limits n strict req s :
+  (tlen s <= n -> unconvert_sty (TString (Some n) strict) req (PStr s) = OK (Some s, false)) /\
+  (n < tlen s -> unconvert_sty (TString (Some n) true) req (PStr s) = Err Reject
+                 /\ unconvert_sty (TString (Some n) false) req (PStr s) = OK (Some s, true)) /\
+  (s <> [] -> string_unescape s = s ->
+     (tlen s <= n -> convert_sty (TString (Some n) strict) req (PStr s) = OK (PStr s, false)) /\
+     (n < tlen s -> convert_sty (TString (Some n) true) req (PStr s) = Err Reject
+                    /\ convert_sty (TString (Some n) false) req (PStr s) = OK (PStr s, true))).
+Proof.
+  cbn [unconvert_sty convert_sty unconvert_string convert_string enforce_length_str]. repeat split.
+  - intro H. destruct (n <? tlen s) eqn:E; [lia|reflexivity].
+  - destruct (n <? tlen s) eqn:E; [reflexivity|lia].
+  - destruct (n <? tlen s) eqn:E; [reflexivity|lia].
+  - intro H2. rewrite (isnil_false _ H), H0. destruct (n <? tlen s) eqn:E; [lia|reflexivity].
+  - rewrite (isnil_false _ H), H0. destruct (n <? tlen s) eqn:E; [reflexivity|lia].
+  - rewrite (isnil_false _ H), H0. destruct (n <? tlen s) eqn:E; [reflexivity|lia].
+Qed.
+
+Theorem integer_limits n req z :
+  ((Z.abs z < Z.of_N (10 ^ n))%Z ->
+     convert_sty (TInteger (Some n)) req (PInt z) = OK (PInt z, false) /\
+     unconvert_sty (TInteger (Some n)) req (PInt z) = nowarn (rmap Some (py_str_of_int z)) /\
+     ((List.length (dec_of_N (Z.abs_N z)) <= MAX_STR_DIGITS)%nat ->
+        unconvert_sty (TInteger (Some n)) req (PInt z) = OK (Some (Z_text z), false) /\
+        convert_sty (TInteger (Some n)) req (PStr (Z_text z)) = OK (PInt z, false))) /\
+  ((Z.of_N (10 ^ n) <= Z.abs z)%Z ->
+     convert_sty (TInteger (Some n)) req (PInt z) = Err Reject /\
+     unconvert_sty (TInteger (Some n)) req (PInt z) = Err Reject /\
+     ((List.length (dec_of_N (Z.abs_N z)) <= MAX_STR_DIGITS)%nat ->
+        convert_sty (TInteger (Some n)) req (PStr (Z_text z)) = Err Reject)).
+Proof.
+  cbn [convert_sty unconvert_sty convert_integer unconvert_integer enforce_length_int]. split; intro H.
+  - destruct (Z.of_N (10 ^ n) <=? Z.abs z)%Z eqn:E; [lia|]. cbn [bind]. repeat split.
+    + unfold py_str_of_int. destruct (MAX_STR_DIGITS <? List.length (dec_of_N (Z.abs_N z)))%nat eqn:E2; [lia|reflexivity].
+    + rewrite (isnil_false _ (Z_text_nonnil z)), (int_of_Z_text z H0). cbn [bind enforce_length_int]. rewrite E. reflexivity.
+  - destruct (Z.of_N (10 ^ n) <=? Z.abs z)%Z eqn:E; [|lia]. cbn [bind]. repeat split.
+    intro H0. rewrite (isnil_false _ (Z_text_nonnil z)), (int_of_Z_text z H0). cbn [bind enforce_length_int]. rewrite E. reflexivity.
+Qed.
+
+Theorem decimal_limits n req :
+  (forall neg c e, e <> quantum_exp n -> unconvert_sty (TDecimal (Some n)) req (PDec (Fin neg c e)) = Err Reject) /\
+  (forall x d w, convert_sty (TDecimal (Some n)) req x = OK (PDec d, w) ->
+     exists neg c, d = Fin neg c (quantum_exp n) /\ (c = 0 \/ (ndigits c <= PREC)%Z)) /\
+  (forall d, is_finite d = false -> forall sc, unconvert_sty (TDecimal sc) req (PDec d) = Err Reject
+                                        /\ convert_sty (TDecimal sc) req (PDec d) = Err Reject).
+Proof.
+  repeat split.
+  - intros neg c e He. cbn [unconvert_sty unconvert_decimal is_finite negb same_quantum_exp].
+    destruct (e =? quantum_exp n)%Z eqn:E; [lia|reflexivity].
+  - intros x d w H. cbn [convert_sty] in H.
+    assert (Hn : forall d0, normalize_dec (Some n) d0 = OK (PDec d) -> exists neg c, d = Fin neg c (quantum_exp n) /\ (c = 0 \/ (ndigits c <= PREC)%Z)).
+    { intros d0 Hd. destruct d0 as [neg c e| |]; cbn [normalize_dec] in Hd; try discriminate.
+      destruct (quantize neg c e (quantum_exp n)) as [d1|] eqn:Eq; cbn [rmap] in Hd; [|discriminate]. injection Hd as ->.
+      destruct (quantize_result _ _ _ _ _ Eq) as (c' & -> & _ & Hc). exists neg, c'. auto. }
+    destruct x; cbn [convert_decimal] in H.
+    + destruct req; cbn in H; discriminate.
+    + destruct (normalize_dec (Some n) (dec_of_Z (Z_of_bool b))) eqn:E; cbn [nowarn rmap] in H; [|discriminate]. injection H as -> _. exact (Hn _ E).
+    + destruct (normalize_dec (Some n) (dec_of_Z z)) eqn:E; cbn [nowarn rmap] in H; [|discriminate]. injection H as -> _. exact (Hn _ E).
+    + destruct (of_string_comma s) as [d0|]; cbn [bind] in H; [|discriminate].
+      destruct (normalize_dec (Some n) d0) eqn:E; cbn [nowarn rmap] in H; [|discriminate]. injection H as -> _. exact (Hn _ E).
+    + destruct (normalize_dec (Some n) d0) eqn:E; cbn [nowarn rmap] in H; [|discriminate]. injection H as -> _. exact (Hn _ E).
+    + discriminate.
+    + discriminate.
+    + discriminate.
+  - cbn [unconvert_sty unconvert_decimal]. rewrite H. reflexivity.
+  - destruct d; [discriminate H|reflexivity|reflexivity].
+Qed.
+
+(** ================= wrong Python type on write ================= *)
+Definition right_type (t : sty) (v : pyval) : bool :=
+  match v with
+  | PNone => true
+  | PBool _ => match t with TBool | TInteger _ => true | _ => false end       (* a Python bool is an int *)
+  | PInt _ => match t with TInteger _ => true | _ => false end
+  | PStr _ => match t with TString _ _ | TOneOf _ => true | _ => false end
+  | PDec _ => match t with TDecimal _ => true | _ => false end
+  | _ => false
+  end.
+Theorem wrong_type_rejected_sty t req v : right_type t v = false -> unconvert_sty t req v = Err Reject.
+Proof. destruct t, v; cbn [right_type]; intro H; try discriminate H; reflexivity. Qed.
+
+(** ================= bad text on read ================= *)
+Lemma mem_text_In s l : mem_text s l = true <-> In s l.
+Proof.
+  unfold mem_text. rewrite existsb_exists. split.
+  - intros (x & Hx & E). apply text_eqb_eq in E. subst. exact Hx.
+  - intro H. exists s. split; [exact H|]. apply text_eqb_eq. reflexivity.
+Qed.
+Theorem bool_bad_text req s : s <> [89] -> s <> [78] -> convert_sty TBool req (PStr s) = Err Reject.
+Proof.
+  intros H1 H2. cbn [convert_sty convert_bool]. destruct (mapping_get bool_mapping s) as [b|] eqn:E; [|reflexivity].
+  apply bool_get in E. destruct E as [[E _]|[E _]]; congruence.
+Qed.
+Theorem oneof_bad_text valid req s : s <> [] -> ~ In s valid -> convert_sty (TOneOf valid) req (PStr s) = Err Reject.
+Proof.
+  intros H1 H2. cbn [convert_sty convert_oneof]. rewrite (isnil_false _ H1).
+  destruct (mem_text s valid) eqn:E; [|reflexivity]. apply mem_text_In in E. contradiction.
+Qed.
+Theorem oneof_accepts_exactly valid req s : s <> [] -> In s valid -> convert_sty (TOneOf valid) req (PStr s) = OK (PStr s, false).
+Proof.
+  intros H1 H2. cbn [convert_sty convert_oneof]. rewrite (isnil_false _ H1). apply mem_text_In in H2. rewrite H2. reflexivity.
+Qed.
+
+(** ================= non-numeric text: a text without any decimal digit is read by neither int() nor Decimal() ================= *)
+Definition is_pydigit (c : N) : bool := match py_decimal c with Some _ => true | None => false end.
+Definition has_digit (s : text) : bool := existsb is_pydigit s.
+
+Lemma ascii_digits_pydigit : forallb is_pydigit [48;49;50;51;52;53;54;55;56;57] = true.
+Proof. vm_compute. reflexivity. Qed.
+Lemma digit_is_pydigit c : is_digit c = true -> is_pydigit c = true.
+Proof.
+  intro H. apply digit_range in H. pose proof ascii_digits_pydigit as F. rewrite forallb_forall in F. apply F. cbn [In].
+  assert (c = 48 \/ c = 49 \/ c = 50 \/ c = 51 \/ c = 52 \/ c = 53 \/ c = 54 \/ c = 55 \/ c = 56 \/ c = 57) by lia. intuition.
+Qed.
+Lemma has_digit_In s : has_digit s = true <-> exists c, In c s /\ is_pydigit c = true.
+Proof. unfold has_digit. apply existsb_exists. Qed.
+
+Lemma lstrip_incl p s x : In x (lstrip p s) -> In x s.
+Proof. induction s as [|c s IH]; [auto|]. cbn [lstrip]. destruct (p c); [right; auto|auto]. Qed.
+Lemma rstrip_incl p s x : In x (rstrip p s) -> In x s.
+Proof.
+  induction s as [|c s IH]; [auto|]. cbn [rstrip]. destruct (rstrip p s) as [|a r] eqn:E.
+  - destruct (p c); [intros []|]. intros [H|[]]. left. exact H.
+  - intros [H|H]; [left; exact H|right; apply IH; exact H].
+Qed.
+Lemma strip_incl p s x : In x (strip p s) -> In x s.
+Proof. unfold strip. intro H. apply lstrip_incl in H. apply rstrip_incl in H. exact H. Qed.
+Lemma parse_sign_incl s x : In x (snd (parse_sign s)) -> In x s.
+Proof.
+  unfold parse_sign. destruct s as [|c r]; [auto|]. destruct (N.eq_dec c 43) as [->|H1]; [right; exact H|].
+  destruct (N.eq_dec c 45) as [->|H2]; [right; exact H|].
+  destruct c as [|p]; [auto|]. do 6 (destruct p as [p|p|]; auto). all: congruence.
+Qed.
+Lemma span_digits_incl s ip r x : span_digits s = (ip, r) -> (In x ip -> In x s /\ is_digit x = true) /\ (In x r -> In x s).
+Proof.
+  revert ip r. induction s as [|c s IH]; intros ip r H; cbn [span_digits] in H.
+  - injection H as <- <-. split; intros [].
+  - destruct (is_digit c) eqn:Ec.
+    + destruct (span_digits s) as [a b] eqn:Es. injection H as <- <-. destruct (IH a b eq_refl) as [I1 I2]. split.
+      * intros [<-|Hx]; [split; [left; reflexivity|exact Ec]|]. destruct (I1 Hx). split; [right; assumption|assumption].
+      * intro Hx. right. exact (I2 Hx).
+    + injection H as <- <-. split; [intros []|auto].
+Qed.
+
+Lemma int_to_ascii_digit s a d : int_to_ascii s = Some a -> In d a -> is_digit d = true -> has_digit s = true.
+Proof.
+  revert a. induction s as [|c s IH]; intros a H Hd Hdd; cbn [int_to_ascii] in H.
+  - injection H as <-. destruct Hd.
+  - unfold has_digit. cbn [existsb]. apply orb_true_iff.
+    assert (Hrec : forall a', int_to_ascii s = Some a' -> In d a' -> existsb is_pydigit s = true) by (intros a' E I; exact (IH a' E I Hdd)).
+    destruct (c <? 127) eqn:E1.
+    + destruct (int_to_ascii s) as [a'|]; cbn [ocons] in H; [|discriminate]. injection H as <-. destruct Hd as [<-|Hd]; [left; apply digit_is_pydigit; exact Hdd|right; exact (Hrec a' eq_refl Hd)].
+    + destruct (py_isspace c).
+      * destruct (int_to_ascii s) as [a'|]; cbn [ocons] in H; [|discriminate]. injection H as <-. destruct Hd as [<-|Hd]; [discriminate Hdd|right; exact (Hrec a' eq_refl Hd)].
+      * destruct (py_decimal c) as [v|] eqn:Ep; [|discriminate].
+        destruct (int_to_ascii s) as [a'|]; cbn [ocons] in H; [|discriminate]. injection H as <-. destruct Hd as [_|Hd]; [left; unfold is_pydigit; rewrite Ep; reflexivity|right; exact (Hrec a' eq_refl Hd)].
+Qed.
+Lemma dec_to_ascii_digit s a d : dec_to_ascii s = Some a -> In d a -> is_digit d = true -> has_digit s = true.
+Proof.
+  revert a. induction s as [|c s IH]; intros a H Hd Hdd; cbn [dec_to_ascii] in H.
+  - injection H as <-. destruct Hd.
+  - unfold has_digit. cbn [existsb]. apply orb_true_iff.
+    assert (Hrec : forall a', dec_to_ascii s = Some a' -> In d a' -> existsb is_pydigit s = true) by (intros a' E I; exact (IH a' E I Hdd)).
+    destruct (c =? 95); [right; exact (Hrec a H Hd)|].
+    destruct ((0 <? c) && (c <=? 127)) eqn:E1.
+    + destruct (dec_to_ascii s) as [a'|]; cbn [ocons] in H; [|discriminate]. injection H as <-. destruct Hd as [<-|Hd]; [left; apply digit_is_pydigit; exact Hdd|right; exact (Hrec a' eq_refl Hd)].
+    + destruct (py_isspace c).
+      * destruct (dec_to_ascii s) as [a'|]; cbn [ocons] in H; [|discriminate]. injection H as <-. destruct Hd as [<-|Hd]; [discriminate Hdd|right; exact (Hrec a' eq_refl Hd)].
+      * destruct (py_decimal c) as [v|] eqn:Ep; [|discriminate].
+        destruct (dec_to_ascii s) as [a'|]; cbn [ocons] in H; [|discriminate]. injection H as <-. destruct Hd as [_|Hd]; [left; unfold is_pydigit; rewrite Ep; reflexivity|right; exact (Hrec a' eq_refl Hd)].
+Qed.
+
+Lemma int_of_string_has_digit s z : py_int_of_string s = OK z -> has_digit s = true.
+Proof.
+  unfold py_int_of_string. destruct (int_to_ascii s) as [a|] eqn:Ea; [|discriminate].
+  destruct (parse_sign (lstrip int_isspace_ascii a)) as [neg body] eqn:Ep.
+  destruct (und_digits (rstrip int_isspace_ascii body)) as [ds|] eqn:Eu; [|discriminate]. intros _.
+  destruct (und_digits_sound _ _ Eu) as (_ & _ & _ & d & r & Er & Hd).
+  apply (int_to_ascii_digit s a d Ea); [|exact Hd].
+  apply (lstrip_incl int_isspace_ascii). apply parse_sign_incl. rewrite Ep. cbn [snd].
+  apply (rstrip_incl int_isspace_ascii). rewrite Er. left. reflexivity.
+Qed.
+
+Lemma of_ascii_fin_has_digit a neg c e : of_ascii a = OK (Fin neg c e) -> exists d, In d a /\ is_digit d = true.
+Proof.
+  unfold of_ascii. destruct (parse_sign a) as [sg body] eqn:Ep.
+  destruct (text_eqb (map lower body) (T "inf") || text_eqb (map lower body) (T "infinity")); [discriminate|].
+  destruct (strip_prefix (T "snan") (map lower body)) as [p|]; [destruct (forallb is_digit p); discriminate|].
+  destruct (strip_prefix (T "nan") (map lower body)) as [p|]; [destruct (forallb is_digit p); discriminate|].
+  destruct (span_digits body) as [ip r1] eqn:E1.
+  destruct (match r1 with 46 :: r => span_digits r | _ => ([], r1) end) as [fp r2] eqn:E2.
+  destruct (isnil ip && isnil fp) eqn:En; [discriminate|]. intros _.
+  assert (Hb : forall x, In x body -> In x a) by (intros x Hx; apply parse_sign_incl; rewrite Ep; exact Hx).
+  destruct ip as [|d ip].
+  - destruct fp as [|d fp]; [discriminate En|].
+    assert (Hfp : In d r1 /\ is_digit d = true).
+    { destruct r1 as [|x r]; [injection E2 as E _; discriminate E|].
+      destruct (N.eq_dec x 46) as [->|Hc].
+      - destruct (span_digits_incl r (d :: fp) r2 d E2) as [I1 _]. destruct (I1 (or_introl eq_refl)). split; [right; assumption|assumption].
+      - exfalso. destruct x as [|q]; [injection E2 as E _; discriminate E|].
+        do 6 (destruct q as [q|q|]; try (injection E2 as E _; discriminate E)). congruence. }
+    destruct Hfp as [Hin Hd]. exists d. split; [|exact Hd]. apply Hb.
+    destruct (span_digits_incl body [] r1 d E1) as [_ I2]. exact (I2 Hin).
+  - destruct (span_digits_incl body (d :: ip) r1 d E1) as [I1 _]. destruct (I1 (or_introl eq_refl)) as [Hin Hd].
+    exists d. split; [apply Hb; exact Hin|exact Hd].
+Qed.
+Lemma of_string_fin_has_digit s neg c e : of_string s = OK (Fin neg c e) -> has_digit s = true.
+Proof.
+  unfold of_string. destruct (dec_to_ascii (strip py_isspace s)) as [a|] eqn:Ea; [|discriminate]. intro H.
+  destruct (of_ascii_fin_has_digit _ _ _ _ H) as (d & Hin & Hd).
+  pose proof (dec_to_ascii_digit _ _ _ Ea Hin Hd) as Hs. apply has_digit_In in Hs. destruct Hs as (x & Hx & Hp).
+  apply has_digit_In. exists x. split; [exact (strip_incl _ _ _ Hx)|exact Hp].
+Qed.
+Lemma comma_dot_pydigit : is_pydigit 44 = false /\ is_pydigit 46 = false.
+Proof. split; vm_compute; reflexivity. Qed.
+Lemma has_digit_comma_to_dot s : has_digit (comma_to_dot s) = has_digit s.
+Proof.
+  unfold has_digit, comma_to_dot. induction s as [|c s IH]; [reflexivity|]. cbn [map existsb]. rewrite IH. f_equal.
+  destruct (c =? 44) eqn:E; [|reflexivity]. apply N.eqb_eq in E. subst c. destruct comma_dot_pydigit as [-> ->]. reflexivity.
+Qed.
+
+Theorem integer_non_numeric l req s : s <> [] -> has_digit s = false -> convert_sty (TInteger l) req (PStr s) = Err Reject.
+Proof.
+  intros Hne Hd. cbn [convert_sty convert_integer]. rewrite (isnil_false _ Hne).
+  destruct (py_int_of_string s) as [z|k] eqn:E.
+  - apply int_of_string_has_digit in E. congruence.
+  - cbn [bind nowarn rmap]. revert E. unfold py_int_of_string. destruct (int_to_ascii s); [|intro E; injection E as <-; reflexivity].
+    destruct (parse_sign (lstrip int_isspace_ascii t)). destruct (und_digits (rstrip int_isspace_ascii t0)); [|intro E; injection E as <-; reflexivity].
+    destruct (MAX_STR_DIGITS <? List.length t1)%nat; [intro E; injection E as <-; reflexivity|discriminate].
+Qed.
+Theorem decimal_non_numeric sc req s : has_digit s = false -> is_ok (convert_sty (TDecimal sc) req (PStr s)) = false.
+Proof.
+  intro Hd. cbn [convert_sty convert_decimal]. destruct (of_string_comma s) as [d|k] eqn:E; [|reflexivity].
+  cbn [bind]. destruct d as [neg c e| |]; [|reflexivity|reflexivity]. exfalso.
+  unfold of_string_comma in E. destruct (of_string s) as [d1|] eqn:E1.
+  - injection E as ->. apply of_string_fin_has_digit in E1. congruence.
+  - apply of_string_fin_has_digit in E. rewrite has_digit_comma_to_dot in E. congruence.
+Qed.
+
+(** ================= lifting to Element / ListElement ================= *)
+Lemma convert_elem e v : convert e v = convert_sty (elem_sty e) (elem_required e) v.
+Proof. induction e as [t r|c IH r]; [reflexivity|exact IH]. Qed.
+Lemma unconvert_elem e v : unconvert e v = unconvert_sty (elem_sty e) (elem_required e) v.
+Proof. induction e as [t r|c IH r]; [reflexivity|exact IH]. Qed.
